@@ -264,6 +264,87 @@ fn dispatch_check(rep: &Report, r: &[Type]) -> u64 {
     n.load(Ordering::Relaxed)
 }
 
+/// Fragment, child types and k of a real Terminal.
+fn frag_of<Ctx: crate::terms::Cx>(t: &Terminal<String, Ctx>) -> (Frag, Vec<Type>, usize) {
+    use Terminal as X;
+    let ty = |m: &Arc<Miniscript<String, Ctx>>| m.ty;
+    match t {
+        X::False => (Frag::False, vec![], 0),
+        X::True => (Frag::True, vec![], 0),
+        X::PkK(_) => (Frag::PkK, vec![], 0),
+        X::PkH(_) | X::RawPkH(_) => (Frag::PkH, vec![], 0),
+        X::After(_) | X::Older(_) => (Frag::Time, vec![], 0),
+        X::Sha256(_) | X::Hash256(_) | X::Ripemd160(_) | X::Hash160(_) => (Frag::Hash, vec![], 0),
+        X::Multi(_) | X::SortedMulti(_) => (Frag::Multi, vec![], 0),
+        X::MultiA(_) | X::SortedMultiA(_) => (Frag::MultiA, vec![], 0),
+        X::Alt(a) => (Frag::Alt, vec![ty(a)], 0),
+        X::Swap(a) => (Frag::Swap, vec![ty(a)], 0),
+        X::Check(a) => (Frag::Check, vec![ty(a)], 0),
+        X::DupIf(a) => (Frag::DupIf, vec![ty(a)], 0),
+        X::Verify(a) => (Frag::Verify, vec![ty(a)], 0),
+        X::NonZero(a) => (Frag::NonZero, vec![ty(a)], 0),
+        X::ZeroNotEqual(a) => (Frag::ZeroNotEqual, vec![ty(a)], 0),
+        X::AndV(a, b) => (Frag::AndV, vec![ty(a), ty(b)], 0),
+        X::AndB(a, b) => (Frag::AndB, vec![ty(a), ty(b)], 0),
+        X::OrB(a, b) => (Frag::OrB, vec![ty(a), ty(b)], 0),
+        X::OrC(a, b) => (Frag::OrC, vec![ty(a), ty(b)], 0),
+        X::OrD(a, b) => (Frag::OrD, vec![ty(a), ty(b)], 0),
+        X::OrI(a, b) => (Frag::OrI, vec![ty(a), ty(b)], 0),
+        X::AndOr(a, b, c) => (Frag::AndOr, vec![ty(a), ty(b), ty(c)], 0),
+        X::Thresh(th) => (Frag::Thresh, th.iter().map(ty).collect(), th.k()),
+    }
+}
+
+/// Wiring: on every constructor application over real terms (all four contexts, full leaf
+/// alphabet) `Miniscript::from_ast` must accept exactly when the fragment's rule function does and
+/// must store exactly that type. Together with the complete-domain comparison of the rule
+/// functions against the specification this decides the typing of whole terms.
+fn wiring<Ctx: crate::terms::Cx>(rep: &Report, ctx: &'static str, n: usize, tap: bool) -> (u64, u64) {
+    let att = AtomicU64::new(0);
+    let acc = AtomicU64::new(0);
+    let hook = |t: &Terminal<String, Ctx>, r: &Result<Miniscript<String, Ctx>, miniscript::Error>| {
+        att.fetch_add(1, Ordering::Relaxed);
+        let (frag, c, k) = frag_of(t);
+        let direct = lib_rule(frag, &c, k);
+        let bad = match (r, &direct) {
+            (Ok(ms), Some(d)) => {
+                acc.fetch_add(1, Ordering::Relaxed);
+                if ms.ty != *d {
+                    Some(format!("from_ast stores type {} but the {:?} rule gives {}", ST::from_lib(&ms.ty).letters(), frag, ST::from_lib(d).letters()))
+                } else {
+                    None
+                }
+            }
+            (Ok(_), None) => Some(format!("from_ast accepts a term the {:?} rule rejects", frag)),
+            (Err(e), Some(_)) => {
+                // context rules (not typing) may refuse: recognised by the error kind
+                let es = format!("{:?}", e);
+                if es.contains("ContextError") || es.contains("MaxRecursiveDepthExceeded") {
+                    None
+                } else {
+                    Some(format!("from_ast refuses ({}) a term the {:?} rule accepts", e, frag))
+                }
+            }
+            (Err(_), None) => None,
+        };
+        if let Some(what) = bad {
+            let name = match r {
+                Ok(ms) => ms.to_string(),
+                Err(_) => format!("{:?}", frag),
+            };
+            rep.violation(Violation {
+                key: format!("C05|wiring|{}|{:?}|{}|k={}|{}", ctx, frag, c.iter().map(|t| ST::from_lib(t).letters()).collect::<Vec<_>>().join(","), k, if c.is_empty() { name.clone() } else { String::new() }),
+                class: format!("from_ast-wiring-{:?}", frag),
+                what,
+                case: json!({"ctx": ctx, "term": name, "fragment": format!("{:?}", frag), "children": c.iter().map(|t| ST::from_lib(t).letters()).collect::<Vec<_>>(), "k": k}),
+            });
+        }
+    };
+    let te = crate::terms::explore_hook::<Ctx>(n, crate::terms::Alphabet::Full, tap, Some(&hook));
+    let _ = te;
+    (att.load(Ordering::Relaxed), acc.load(Ordering::Relaxed))
+}
+
 pub fn run(tier: Tier) -> i32 {
     let rep = Report::new("C05", tier);
     let all = all_lib_types();
@@ -363,6 +444,21 @@ pub fn run(tier: Tier) -> i32 {
     }
     let nd = dispatch_check(&rep, &r);
     rep.count("dispatch_checks", nd);
+    let wn = tier.pick(4, 5);
+    rep.extra("wiring_nodes", json!(wn));
+    let mut w_att = 0;
+    let mut w_acc = 0;
+    for (a, b) in [
+        wiring::<Segwitv0>(&rep, "segwitv0", wn, false),
+        wiring::<miniscript::Tap>(&rep, "tap", wn, true),
+        wiring::<miniscript::Legacy>(&rep, "legacy", wn, false),
+        wiring::<miniscript::BareCtx>(&rep, "bare", wn, false),
+    ] {
+        w_att += a;
+        w_acc += b;
+    }
+    rep.count("wiring_constructor_applications", w_att);
+    rep.count("wiring_accepted_terms", w_acc);
     rep.count("tuples", ctr.tuples.load(Ordering::Relaxed));
     rep.count("tuples_accepted_by_both", ctr.accepted.load(Ordering::Relaxed));
     rep.count("tuples_rejected_by_both", ctr.rejected.load(Ordering::Relaxed));
@@ -377,7 +473,7 @@ pub fn run(tier: Tier) -> i32 {
         nd,
         t,
         ctr.accepted.load(Ordering::Relaxed),
-        "complete domain: every unary rule on all 960 child types, every binary rule and thresh(k,2) on all 960^2 pairs, and_or on reachable^3 (+ correctness cube and malleability cube; thorough: all 960^3), thresh n<=3 (thorough 4) over all reachable d,u child types and n<=6 (8) over a basis; accept/reject equality and never-stronger on every tuple, full equality (minus the printed deviation list) on reachable types; dispatch of every Terminal variant. non-trivial = tuples accepted by both sides",
+        "complete domain: every unary rule on all 960 child types, every binary rule and thresh(k,2) on all 960^2 pairs, and_or on reachable^3 (+ correctness cube and malleability cube; thorough: all 960^3), thresh n<=3 (thorough 4) over all reachable d,u child types and n<=6 (8) over a basis; accept/reject equality and never-stronger on every tuple, full equality (minus the printed deviation list) on reachable types; dispatch of every Terminal variant; wiring: every constructor application over real terms up to the wiring bound (full leaf alphabet incl. sortedmulti(_a), all hashes, both lock units; 4 contexts): from_ast accepts iff the rule function does and stores exactly its type. non-trivial = tuples accepted by both sides",
         true,
     )
 }
